@@ -18,7 +18,13 @@ EXPLANATION = ("P1 the PEG extracted from the nom combinator calls of src/filter
                "output feeding each slot; P4 the equality / presence / substring discrimination (same evaluation), no `*` list after an ordering / approx "
                "operator, and the adjacent-asterisk test evaluated on all 121 lists of 0..4 components over {empty, x, *}; P5 the "
                "unescaper's transition table over {backslash, hex digit, other} x {WantFirst, WantSecond, Value, Error} and acceptance only "
-               "in Value, the value fold (fold_many0 closures or a loop over the consumed prefix: base case, generic step, acceptance) and the unescaper evaluated exhaustively on literals over all 5120 (state, byte) pairs (hex arithmetic included); P6 no panic source reachable from parse / parse_matched_values that is not reviewed infeasible or discharged by a guard re-read on every run. Not decided: "
+               "in Value, the value fold (fold_many0 closures or a loop over the consumed prefix: base case, generic step, acceptance) and the unescaper evaluated exhaustively on literals over all 5120 (state, byte) pairs (hex arithmetic included); P6 no panic source reachable from parse / parse_matched_values that is not reviewed infeasible or discharged by a guard re-read on every run; "
+               "P8 what the leaf parsers RETURN (value reading of the nom combinators next to the grammar reading: recognize = the consumed bytes, terminated / preceded / "
+               "delimited = one part's output, pair / tuple, opt, many0, map, verify, peek ...): the attribute description slot of every item holds exactly the bytes the "
+               "attribute-description step consumed (type and all options), the operator dispatched on is the literal consumed, the matchingRule slot holds what the step "
+               "consumed after the colon, every `*` component is the output of unescaped() on its part, the unescaper is folded over the consumed bytes themselves and unescaped() returns that fold's "
+               "result as it is; the actions of and / or / not / mv_filterlist receive the outputs of their sub-rule (every repetition, in input order) and the rules in "
+               "between hand one part's tree upwards unchanged. Not decided: "
                "'printing the BER reproduces the input' taken whole.")
 TRUSTED = ['nom combinator semantics', 'RFC 4515 grammar transcribed below', 'rules/triage/C08.tsv']
 UNDECIDED = ['round trip through a canonical printer taken whole']
@@ -113,6 +119,17 @@ def out_of_comb(*needles):
             return False
         s = str(t[1][1][2][0])
         return all(n in s for n in needles)
+    return f
+
+def out_of_step(B, app):
+    """predicate: the value (.1, possibly the Some payload of it) produced by the parser application `app` (a node of body B)"""
+    def f(t, env):
+        t = strip(t)
+        if t[0] == 'variant' and t[2] == 'Some':
+            t = t[1]
+        if not (t[0] == 'field' and t[2] == '1' and t[1][0] == 'variant' and t[1][2] == 'Ok' and t[1][1][0] == 'call' and len(t[1][1]) > 3):
+            return False
+        return B.by_id.get(t[1][1][3]) is app
     return f
 
 def run(ctx):
@@ -284,8 +301,11 @@ def run(ctx):
                 continue
             n += 1
             tag = o.val[2][0][1][1]
-            mr = out_of_comb("b':'", 'attributetype')
-            dn = out_of_comb("b':dn'")
+            # the matching-rule / dn-flag steps by role (what the step parses, ext_roles) and the identity of the application; only
+            # when the chain cannot be read that way, by the literals the combinator expression mentions
+            xr = ext_roles(X.chains.get(FP + name) or [])
+            mr = out_of_step(B, xr['mrule']['app']) if xr else out_of_comb("b':'", 'attributetype')
+            dn = out_of_step(B, xr['dn']['app']) if (xr and 'dn' in xr) else out_of_comb("b':dn'")
             def is_some_pc(pred):
                 def g(pc):
                     for a, t in pc:
@@ -307,8 +327,11 @@ def run(ctx):
             ctx.add('P3.shape', '%s|%d' % (name, n), loc(B.root), not mism, '; '.join(mism)[:300] or 'matches RFC 4511')
         ctx.floor('P3', name + ' paths', n, 2 if not has_attr else 4)
 
+    # ------------------------------------------------------------------ P8 what the leaf parsers RETURN vs what they CONSUME
+    check_outputs(ctx, f, X, rules, classmap)
+
     # ------------------------------------------------------------------ P5 unescaper
-    check_unescaper(ctx, f)
+    check_unescaper(ctx, f, X)
 
     # ------------------------------------------------------------------ P6 no panic
     G = cone.Graph(f, engine.REPO)
@@ -332,6 +355,17 @@ def run(ctx):
 
 OPS = {b'=': None, b'>=': 5, b'<=': 6, b'~=': 8}      # RFC 4511: greaterOrEqual [5], lessOrEqual [6], approxMatch [8]; '=' is equality [3] / substrings [4] / present [7]
 
+def mentions(g, what):
+    if g == what:
+        return True
+    if g[0] in ('seq', 'alt'):
+        return any(mentions(x, what) for x in g[1])
+    if g[0] in ('star', 'plus', 'opt', 'check', 'peek'):
+        return mentions(g[1], what)
+    if g[0] == 'bound':
+        return mentions(g[2], what)
+    return False
+
 def item_roles(chain):
     """The parse results an attribute-value item is built from, found by *what each step of the function's let-chain parses* (not
     by the names of functions or locals): the attribute description, the operator (a literal or an alternative of literals out
@@ -342,16 +376,6 @@ def item_roles(chain):
         if k in roles:
             raise KeyError(k)
         roles[k] = e
-    def mentions(g, what):
-        if g == what:
-            return True
-        if g[0] in ('seq', 'alt'):
-            return any(mentions(x, what) for x in g[1])
-        if g[0] in ('star', 'plus', 'opt', 'check', 'peek'):
-            return mentions(g[1], what)
-        if g[0] == 'bound':
-            return mentions(g[2], what)
-        return False
     try:
         for e in chain:
             g = e['g']
@@ -369,6 +393,170 @@ def item_roles(chain):
     except KeyError:
         return None
     return roles if all(k in roles for k in ('attr', 'op', 'initial')) else None
+
+def ext_roles(chain):
+    """The parse results an extensible-match item is built from, found by what each step of the let-chain parses (as item_roles):
+    the attribute description (optional), the `:dn` flag, the matching rule (the step that parses an attribute type after a
+    colon), the `:=` separator and the value.  None if the chain is not of that kind."""
+    roles = {}
+    for e in chain:
+        g = e['g']
+        if g in (('ref', FP + 'attributedescription'), ('opt', ('ref', FP + 'attributedescription'))):
+            k = 'attr'
+        elif g == ('ref', FP + 'unescaped'):
+            k = 'value'
+        elif g == ('lit', b':='):
+            k = 'sep'
+        elif mentions(g, ('lit', b':dn')):
+            k = 'dn'
+        elif mentions(g, ('lit', b':')) and mentions(g, ('ref', FP + 'attributetype')):
+            k = 'mrule'
+        else:
+            return None
+        if k in roles:
+            return None
+        roles[k] = e
+    return roles if all(k in roles for k in ('mrule', 'sep', 'value')) else None
+
+def check_outputs(ctx, f, X, rules, classmap):
+    """P8: the octets an item places into a *text* slot of the RFC 4511 Filter are exactly the bytes the corresponding rule of the
+    grammar CONSUMED - not less (an attribute description without its options), not more (a delimiter dragged along).
+
+    P1 decides which strings the parser functions consume and P3 which parser application feeds which slot; both are blind to what
+    a parser function *returns*.  A nom parser returns a pair (remainder, output) and the two are independent: `terminated(a, b)`
+    consumes a b and returns a's output, `recognize(p)` returns the consumed bytes whatever p returns.  peg.Extractor.value reads
+    the output of every parser expression as a function of the bytes it consumes (one line per combinator), and peg.text_part
+    decides whether that output is a slice of the input and which part of the grammar it spans.  Slots decided this way, for every
+    item parser (found by role, as in P3):
+      * the attribute description (AttributeDescription of equalityMatch / substrings / >= / <= / ~= / present, `type` [2] of
+        extensibleMatch): the output of the attribute-description step = all the bytes it consumed (attribute type AND options);
+        this goes through attributedescription() -> attributetype() -> numericoid() / descr(), each decided the same way;
+      * the operator the item parser dispatches on (P3 evaluates the parser once per operator literal, taking the step's output to
+        be the literal matched): the output of the operator step = the bytes it consumed;
+      * `matchingRule` [1] of extensibleMatch: the output of the matching-rule step (through `opt`) = the bytes of a part of the step
+        such that the step consumes a colon, that part and nothing else (the colon is consumed and dropped; that the part is an
+        `attributetype` is P1's verdict on the step);
+      * the value slots (assertionValue, initial / any / final, matchValue) are not text slots: they hold the output of unescaped(),
+        i.e. the unescaper folded over *exactly the consumed bytes* - decided by P5.fold-over-consumed-bytes, which for the
+        fold_many0 form now requires the element parser's output to be the byte it consumed; here only: every component of the `*`
+        list is the output of unescaped() applied to its part (through `preceded`, `many0` and the acceptance test P4 evaluates).
+    A parser function written by hand has no value reading: the slot it feeds is reported (fails closed)."""
+    ext_rec = peg.recursive_rules(rules, lambda n: n.split('::')[-1])
+    look_ext = lambda n: rules.get(FP + n)
+    def only_empty(g):
+        try:
+            return peg.language(f, g, look_ext, ext_rec, classmap) == {()}
+        except peg.NoNormalForm:
+            return False
+    def fn_value(p):
+        return X.fn_value(p), rules.get(p) or ('unknown', 'no grammar for ' + p)
+    def all_but_the_colon(part, g):
+        """the step g consumes a colon followed by `part` and nothing else (that the part is an `attributetype` is then P1's
+        verdict on the step): L(g) = { ":" + t | t in L(part) }"""
+        try:
+            return peg.language(f, g, look_ext, ext_rec, classmap) == {(('b', ord(':')),) + t for t in peg.language(f, part, look_ext, ext_rec, classmap)}
+        except peg.NoNormalForm:
+            return False
+    def whole_text(p, e, slot, what):
+        v, g = X.step_value(p, e), e['g']
+        if v[0] == 'opt' and g[0] == 'opt':
+            v, g = v[2], g[1]           # an optional part: the slot (filled when the part is present) receives the payload
+        part, whole, why = peg.text_part(v, g, fn_value, only_empty)
+        name = p.split('::')[-1]
+        ctx.add('P8.slot-is-the-consumed-text', '%s|%s' % (name, slot), loc(e['app']), whole,
+                'in %s() %s receives the output of `%s`, which is not the bytes that step consumed: %s' % (name, what, peg.show(e['g']), why or peg.show_value(v)))
+    def from_unescaped(v):
+        if v == ('fn', FP + 'unescaped'):
+            return True
+        return v[0] == 'sub' and from_unescaped(v[3])
+    kinds = set()
+    for p, ch in sorted(X.chains.items()):
+        name = p.split('::')[-1]
+        roles = item_roles(ch)
+        if roles is not None:
+            whole_text(p, roles['attr'], 'attribute description', 'the attribute description slot'); kinds.add('attr')
+            if roles['op']['bind'] is not None:
+                whole_text(p, roles['op'], 'operator', 'the operator the filter choice is decided on'); kinds.add('op')
+            if 'list' in roles:
+                e = roles['list']
+                v = X.step_value(p, e)
+                test = e['g'][3] if (e['g'][0] == 'check' and len(e['g']) > 3) else None
+                if v[0] == 'mapres' and v[1] is test:
+                    v = v[3]            # map_res whose closure hands an accepted list on unchanged: P4.adjacent-asterisks.rejects
+                ok = v[0] == 'list' and from_unescaped(v[2])
+                ctx.add('P8.slot-is-the-parser-output', '%s|substring components' % name, loc(e['app']), ok,
+                        'in %s() the components after an asterisk are not the outputs of unescaped() applied to each component, in input order: the step yields %s' % (name, peg.show_value(v)))
+                kinds.add('list')
+            continue
+        roles = ext_roles(ch)
+        if roles is None:
+            continue
+        if 'attr' in roles:
+            whole_text(p, roles['attr'], 'attribute description', 'the `type` [2] slot of extensibleMatch'); kinds.add('attr')
+        e = roles['mrule']
+        v = X.step_value(p, e)
+        g = e['g']
+        if v[0] == 'opt':
+            v, g = v[2], v[1]
+        part, whole, why = peg.text_part(v, g, fn_value, only_empty)
+        ok = part is not None and all_but_the_colon(part, g)
+        ctx.add('P8.slot-is-the-consumed-text', '%s|matching rule' % name, loc(e['app']), ok,
+                'in %s() the `matchingRule` [1] slot of extensibleMatch receives the output of `%s`, which is not the bytes of the matching rule name (all that the step consumes after the colon): %s' % (
+                    name, peg.show(e['g']), ('it is the bytes of `%s`' % peg.show(part)) if part is not None else (why or peg.show_value(v))))
+        kinds.add('mrule')
+    # ---- the tree-valued rules: what reaches a semantic action, and what the pass-through rules hand upwards
+    # P3 applies the action of and / or / not / mv_filterlist to a symbolic argument and takes the item parsers' own results for the
+    # leaves; here: that argument is the output of the sub-rule (for a list: of every repetition, in input order), and the rules in
+    # between (filter, filtercomp, filterlist, item, extensible, the entry rules) return one part's output as it is.
+    def resolve(v, depth=0):
+        """a value reduced to outputs of the functions that compute something: ('out', fn) | ('list', r) | ('oneof', {r..}) | ('opaque', text)"""
+        if depth > 40:
+            return ('opaque', 'nested too deeply')
+        if v[0] == 'fn':
+            fv = X.fn_value(v[1])
+            return resolve(fv, depth + 1) if fv[0] in ('fn', 'sub', 'alt', 'list') else ('out', v[1])
+        if v[0] == 'sub':
+            return resolve(v[3], depth + 1)
+        if v[0] == 'alt':
+            rs = frozenset(resolve(x, depth + 1) for x in v[2])
+            return next(iter(rs)) if len(rs) == 1 else ('oneof', rs)
+        if v[0] == 'list':
+            return ('list', resolve(v[2], depth + 1))
+        return ('opaque', peg.show_value(v))
+    def show_r(r):
+        if r[0] == 'out': return 'output of %s()' % r[1].split('::')[-1]
+        if r[0] == 'list': return 'Vec of (%s)' % show_r(r[1])
+        if r[0] == 'oneof': return ' / '.join(sorted(show_r(x) for x in r[1]))
+        return r[1]
+    def leaves(r):
+        if r[0] == 'oneof':
+            return [y for x in r[1] for y in leaves(x)]
+        return [r]
+    n_actions = 0
+    for name, sub, many in (('and', 'filter', True), ('or', 'filter', True), ('not', 'filter', False), ('mv_filterlist', 'item', True)):
+        if FP + name not in f.hir or FP + sub not in f.hir:
+            continue                    # P3.shape reports the missing action
+        v = X.fn_value(FP + name)
+        B = hirq.Body(f, f.hir[FP + name])
+        cl = [n for n, c in walk(B.root) if n['k'] == 'Closure']
+        want = resolve(('fn', FP + sub))
+        want = ('list', want) if many else want
+        got = resolve(v[3]) if v[0] == 'map' else None
+        n_actions += 1
+        ctx.add('P8.action-argument', name, loc(B.root), v[0] == 'map' and bool(cl) and v[1] is cl[-1] and got == want,
+                'the semantic action of %s() (the one P3 evaluates) must be applied to %s; %s() is %s%s' % (
+                    name, show_r(want), name, peg.show_value(v)[:160], (', the action receives ' + show_r(got)) if got is not None else ''))
+    decided = {FP + n for n in ('and', 'or', 'not', 'mv_filterlist')} | {p for p, ch in X.chains.items() if item_roles(ch) is not None or ext_roles(ch) is not None}
+    for entry in ('filtexpr', 'mv_filtexpr'):
+        if FP + entry not in f.hir:
+            continue
+        r = resolve(('fn', FP + entry))
+        bad = [x for x in leaves(r) if not (x[0] == 'out' and x[1] in decided)]
+        ctx.add('P8.tree-passes-through', entry, loc(f.hir[FP + entry]['body']), not bad,
+                'the tree %s() returns must be the result of one of the semantic actions P3 decides, handed upwards unchanged by the rules in between; it can also be: %s' % (
+                    entry, sorted(show_r(x) for x in bad)[:4]))
+    ctx.floor('P8.actions', 'semantic actions whose argument was decided', n_actions, 4)
+    ctx.floor('P8', 'kinds of text slots whose feeding parser output was decided (attribute description, operator, substring components, matching rule)', len(kinds), 4)
 
 ATTR = ('param', 'attr')
 
@@ -537,7 +725,7 @@ def check_adjacent(ctx, f, B, roles, name):
     ctx.add('P4.adjacent-asterisks.rejects', name, loc(node), not changed and not wrong, 'an accepted list must be handed on unchanged (changed: %s)' % changed[:3])
 
 
-def check_unescaper(ctx, f):
+def check_unescaper(ctx, f, X=None):
     p = FP + 'Unescaper::feed'
     B = hirq.Body(f, f.body(p))
     ctx.analysed['bodies'].add(p)
@@ -578,7 +766,7 @@ def check_unescaper(ctx, f):
     # the fold in `unescaped`: start in Value, push exactly the Value payloads, accept only in Value
     U = hirq.Body(f, f.body(FP + 'unescaped'))
     ctx.analysed['bodies'].add(U.path)
-    ok_init, ok_step, ok_acc, ok_src, form = fold_facts(f, U)
+    ok_init, ok_step, ok_acc, ok_src, form = fold_facts(f, U, X)
     ctx.add('P5.fold-initial-state', 'unescaped', loc(U.root), ok_init, 'the unescaper must start in Value with an empty output')
     ctx.add('P5.fold-step', 'unescaped', loc(U.root), ok_step, 'each input byte must be fed to the unescaper and exactly the Value payloads pushed to the output')
     ctx.add('P5.accept-only-in-value', 'unescaped', loc(U.root), ok_acc, 'a value ending inside an escape sequence (or after a bad one) must be rejected')
@@ -591,7 +779,7 @@ def is_value(pc, st_t):
     """what a path condition says about `st_t is Unescaper::Value` (a test against another variant decides it too)"""
     return sem.variant_truth(pc, lambda t: t == st_t, 'Unescaper::Value', UNESC_VARIANTS)
 
-def fold_facts(f, U):
+def fold_facts(f, U, X=None):
     """The value computation of `unescaped` is a fold of the consumed bytes through Unescaper::feed.  Its three parts - the initial
     (state, output), the step and the acceptance test - are decided on the enumerated paths, for either way of writing a fold:
       (a) nom's `map_res(fold_many0(byte parser, init, step), finish)`: the three closures are applied to symbolic arguments;
@@ -635,8 +823,14 @@ def fold_facts(f, U):
             seen.add(isv)
             ok_acc = ok_acc and o.kind in ('val', 'ret') and ((isv is True and o.val == ('ctor', 'Ok', (acc,))) or (isv is False and sem.is_err_result(o.val)))
         ok_acc = ok_acc and seen == {True, False}
-        # fold_many0 folds the outputs of its element parser, one per application, in input order: by nom's definition
-        return ok_init, ok_step, ok_acc, True, 'fold_many0'
+        # fold_many0 folds the outputs of its element parser, one per application, in input order: by nom's definition.  What is
+        # folded is therefore the consumed bytes exactly when the element parser's OUTPUT is the byte it consumed (value reading
+        # of the element parser: be_u8 under any number of `verify`s; a `map` in between would feed the unescaper something else)
+        # ... and what unescaped() returns is the acceptance test's payload of that very fold, nothing applied on top of it
+        el = X.value_of(fold['args'][0], U.path) if X is not None else ('unknown', 'no extractor')
+        fv = X.fn_value(U.path) if X is not None else ('unknown', 'no extractor')
+        direct = fv[0] == 'mapres' and fv[1] is fin_c and fv[3][0] == 'fold' and fv[3][3] is init_c and fv[3][4] is step_c
+        return ok_init, ok_step, ok_acc, el == peg.BYTE and direct, 'fold_many0 over %s; the function returns %s' % (peg.show_value(el), peg.show_value(fv))
     # (b) a loop
     try:
         outs = I.run()
